@@ -94,7 +94,8 @@ def run_rdf(ctx, bins):
 def run_dot(ctx, bins):
     thorough = ctx.tier == "thorough"
     spec, cfg = "codec/DotAbstract.tla", "codec/DotAbstract.cfg"
-    runs = [("roles", "every pool string in every role", 0, 1), ("shapes", "all graphs on 3 seed-chosen hostile names", 0, 1)]
+    runs = [("roles", "every pool string in every role", 0, 1), ("shapes", "all graphs on 3 seed-chosen hostile names", 0, 1),
+            ("multi", "multigraphs: every multiset of <= 3 lines between two hostile names", 0, 1)]
     if thorough:
         runs += [("pairs", "pairs of hostile names, shard %d/4" % i, i, 4) for i in range(4)]
     else:
